@@ -5,10 +5,12 @@ ROOT = os.path.dirname(os.path.dirname(os.path.abspath(__file__)))
 rows = {}
 for line in open(os.path.join(ROOT, "seeded", "MATRIX.txt")):
     m = re.match(r"^(\S+) (C\d+) rc=(\d+) (\d+) \| ?(.*)$", line.strip())
-    if m:
-        rows.setdefault(m.group(1), []).append((m.group(2), int(m.group(3)), int(m.group(4)), m.group(5)))
+    if m:       # later lines replace earlier ones for the same (change, property)
+        rows.setdefault(m.group(1), {})[m.group(2)] = (m.group(2), int(m.group(3)), int(m.group(4)), m.group(5))
+rows = {k: list(v.values()) for k, v in rows.items()}
 out = ["\n## 16. Seeded changes and detection matrix\n",
-       "Two sources. (a) **Independent seeds**: for every property two fresh sub-agents' changes (variants a, b), each written with only the property text and a scratch "
+       "Two sources. (a) **Independent seeds**: for every property four fresh sub-agents' changes (round 1: variants a, b; round 2: variants c, d, written knowing "
+       "the one-line summaries of a and b and asked for something different and subtler), each written with only the property text and a scratch "
        "worktree, each confirmed by `tools/confirm_seed.sh` in a scratch worktree (patch applies to HEAD, the full suite still reports 1781 passed, the demonstration fails with "
        "the change and passes without). (b) **Fix reverts**: the reverse patch of every `fix:` commit (`seeded/fixrev_<commit>`), i.e. the defects the machinery found or "
        "confirmed. `tools/seed_matrix.sh` applies each change to a scratch worktree (never to /repo), runs the quick check of its property (plus the checks listed under "
@@ -29,6 +31,9 @@ for d in sorted(glob.glob(os.path.join(ROOT, "seeded", "*"))):
     err = [f"{p}(exit {rc})" for (p, rc, nv, msg) in r if rc not in (0, 1)]
     first = next((msg for (p, rc, nv, msg) in r if rc == 1), "")
     cl = re.match(r"\[([^\]]+)\]", first)
+    if meta.get("superseded_by"):
+        out.append(f"| {n} | {meta.get('property')} | {summ} - needs: {need} | superseded by fix {meta['superseded_by']}: {meta.get('superseded_note', '')[:260]} | |")
+        continue
     if not caught:
         miss.append(n)
     out.append(f"| {n} | {meta.get('property')} | {summ} - needs: {need} | {', '.join(caught) or '**not caught**'}{(' (not by ' + ', '.join(notc) + ')') if notc and caught else ''}{' ' + ' '.join(err) if err else ''} | {cl.group(1) if cl else ''} |")
